@@ -477,10 +477,52 @@ def assocexec(run, fx, maxc=4, maxs=3):
     return cases, None
 
 
+def charinfo_always(run, fx):
+    """ONEPERCHAR, the callee's side: read_text counts every character it hands to appendSlot, so appendSlot fills that character's
+    char-info (init / base) on every path -- the only exit in front of it is the failure of Segment::newSlot itself (a local that is
+    initialised by exactly that call and tested null).  A glyph the font does not have is still a character of the text."""
+    from .util import reaches_avoiding
+    fn = fx.one('graphite2::Segment::appendSlot')
+    inst = 'appendSlot fills the char-info on every path but allocation failure'
+    inits = [e for _, e in fn.elements() if (e.get('fq') or '').endswith('CharInfo::init')]
+    bases = [e for _, e in fn.elements() if (e.get('fq') or '').endswith('CharInfo::base') and e.get('args')]
+    if not inits or not bases:
+        run.broken('ONEPERCHAR', inst, 'CharInfo::init / base calls not found in appendSlot', fn.where())
+        return
+    pure = set()
+    for _, e in fn.elements():
+        if e['k'] == 'DeclStmt':
+            for d in e.get('decls', []):
+                if d.get('init') is not None and (fn.strip_all_casts(fn.N(d['init'])).get('fq') or '').endswith('Segment::newSlot'):
+                    pure.add(d['n'])
+    cut = dom.edges_with(fn, lambda f: f[0] in pure and f[1] == '==' and f[2] == '0')
+    stop = {fn.block_of[inits[0]['i']]}
+    seen, todo, leak = set(), [fn.entry], None
+    while todo:
+        b_ = todo.pop()
+        if b_ is None or b_ in seen or b_ in stop:
+            continue
+        seen.add(b_)
+        rets = [x for x in fn.blocks[b_]['el'] if x['k'] == 'ReturnStmt']
+        if rets or b_ == fn.exit:
+            leak = rets[0] if rets else None
+            break
+        for idx_, x_ in enumerate(fn.blocks[b_]['succ']):
+            if (b_, idx_) not in cut:
+                todo.append(x_)
+    if leak is not None or (fn.exit in seen):
+        run.violated('ONEPERCHAR', inst, fn.loc(leak) if leak is not None else fn.where(), 'Segment::appendSlot can return before it has filled m_charinfo[id] on a path that is not the failure of newSlot() '
+                     '(locals that hold exactly a newSlot() result: %s): read_text has already counted the character, so its char-info keeps code point 0 and base 0 -- the bases are no longer '
+                     'strictly increasing and one slot is missing from the count' % (sorted(pure) or 'none'))
+    else:
+        run.held('ONEPERCHAR', inst, fn.loc(inits[0]), 'CharInfo::init is reached on every path except `%s == 0`' % '/'.join(sorted(pure)))
+
+
 def run(run):
     vm = R.get_vm(run)
     fx = vm.fx
     oneperchar(run, fx)
+    charinfo_always(run, fx)
     assocdom(run, fx)
     cinfo(run, fx)
     gapfill(run, fx)
@@ -488,6 +530,9 @@ def run(run):
     assocpasses(run, fx)
     from . import c03
     c03.nomutpos(run, vm)        # no pass that runs after associateChars may insert or delete slots: the loader types every pass from m_pPass on as POSITIONING or later (shared with C03)
+    from . import c19 as c19_
+    from .util import OnlyRules
+    c19_.justify_rules(OnlyRules(run, ['RESTORE'], {'RESTORE': 'NOMUTPOS'}), fx)      # gr_seg_justify gives the segment its own first / last slot back: the characters of the lines in front stay covered (shared with C19)
     from . import c04 as c04_
     ipc_ = 'PUT_COPY leaves the current slot a live, correctly linked slot (interpreted)'
     try:
